@@ -72,6 +72,19 @@ def c16(ck):
                     tlc_workers=8 if ck.tier == "quick" else 12, harness_workers=6, timeout=3400)
 
 
+def c17(ck):
+    ck.rule = ("timestamps: 18-19 day-boundary cases (1-7 Jan, 25-31 Dec, 28 Feb / 29 Feb / 1 Mar, mid-year) for each listed year plus "
+               "years 1, 1000, 9999; every hour; sub-second values 5 ms, 1 us, 1 ns, 123456789, 999999999, 0.5 s x offsets -12:00, "
+               "-03:30, 0, +01:00, +05:30, +05:45, +14:00; formats: every directive (21 numeric, 7 alphabetical, 16 others) x 9 flag "
+               "combinations x widths {none, 1, 3, 6, 12} on 5 stamps (thorough: all stamps), every plain directive, directive between "
+               "literals, concatenations, unknown ASCII and non-ASCII directives, trailing %, non-ASCII text on all stamps; each stamp "
+               "also through 4 alternative input spellings; non-trivial = non-empty format")
+    ck.assumptions = ["now/today are excluded (they read the clock)", "%Z prints an offset (documented deviation), %s is claimed for 1970..2037",
+                      "flag/width combinations on composite directives, %#p / %^P / %#P, and offsets with a width or the _ flag are unspecified (totality only)"]
+    ck.replay_stage("dates", "MC_C17", "MC_C17_quick.cfg" if ck.tier == "quick" else "MC_C17_thorough.cfg",
+                    tlc_workers=8 if ck.tier == "quick" else 12, harness_workers=6, timeout=3400)
+
+
 def c18(ck):
     ck.rule = ("every operation sequence over {PushPlain d, PushSandbox d, PushGlobal, Pop, SetGlobal k v, SetIndex k v} "
                "from every one of the 9 base maps up to the stated length is one TLC state and one replay record; "
@@ -230,7 +243,7 @@ def c20(ck):
     ck.trace_stage("realthreads", ["threads", "--runs", runs], "Trace_Threads", "Trace_Threads.cfg", heap="8g", timeout=3000)
 
 
-PROPS = {"C03": c03, "C04": c04, "C06": c06, "C07": c07, "C08": c08, "C09": c09, "C10": c10, "C11": c11, "C13": c13, "C14": c14, "C15": c15, "C16": c16, "C19": c19, "C20": c20, "C05": c05, "C18": c18}
+PROPS = {"C03": c03, "C04": c04, "C06": c06, "C07": c07, "C08": c08, "C09": c09, "C10": c10, "C11": c11, "C13": c13, "C14": c14, "C15": c15, "C16": c16, "C17": c17, "C19": c19, "C20": c20, "C05": c05, "C18": c18}
 
 
 def replay_file(prop, path):
